@@ -45,7 +45,10 @@ Inductive c11case :=
 | CFilePanic (input : list N) (ff : bool)
 (* humanString on each diagnostic separately *)
 | CHuman (input : list N) (context : Z) (ds : list odiag) (obs : list hres)
-| CHumanPanic (input : list N) (context : Z) (ds : list odiag).
+| CHumanPanic (input : list N) (context : Z) (ds : list odiag)
+(* ParseFile on "a = " + opens x "[" + closes x "]" (+ newline when closes > 0), the input built here: the
+   boundary of the array nesting bound, compared on the projected result (tree nil, statements, diagnostics) *)
+| CDeep (opens closes : N) (ff : bool) (treenil : bool) (nstmts : N) (diags : list odiag).
 
 Definition c11_check (c : c11case) : bool :=
   match c with
@@ -77,4 +80,14 @@ Definition c11_check (c : c11case) : bool :=
     end
   | CHumanPanic input context ds =>
     is_panic (human_bytes input context (map diag_of_obs ds))
+  | CDeep opens closes ff treenil nstmts diags =>
+    let input := [97; 32; 61; 32]%N ++ repeat 91%N (N.to_nat opens) ++ repeat 93%N (N.to_nat closes)
+                 ++ (if N.eqb closes 0 then [] else [10%N]) in
+    match parse_file input ff with
+    | Ok p =>
+      Bool.eqb (match ptree p with None => true | Some _ => false end) treenil
+      && N.eqb (N.of_nat (match ptree p with None => O | Some b => length b end)) nstmts
+      && list_eqb odiag_eqb (map diag_obs (pdiags p)) diags
+    | _ => false
+    end
   end.
